@@ -92,6 +92,7 @@ class Engine(object):
         self.defs_cache = {}
         self.decided = {}
         self.model = None
+        ST.pending_defs = {}
         self.pc_assump = []
         # split bits apply to the first branching decisions of the very first run; afterwards the queued prefixes
         # already contain them
